@@ -351,6 +351,9 @@ func augmentCall(call *Call, f *ast.FuncDecl) {
 					return strconv.FormatUint(v, 10)
 				})
 				str = fmt.Sprintf("%s(%s len=%s cap=%s)", t, name, lenStr, capStr)
+			} else if t == "func" || strings.HasPrefix(t, "map[") || strings.HasPrefix(t, "chan ") {
+				// Maps, channels and funcs are a single pointer word.
+				str = fmt.Sprintf("%s(%s)", t, popName())
 			} else {
 				if i < len(call.Args.Values) && call.Args.Values[i].IsAggregate {
 					// If top-level argument is an aggregate-type, include each
